@@ -28,6 +28,12 @@ def first_option(block, name):
     return opts[0] if opts is not None else None
 
 
+def options_ok(block):
+    """validated comment block: (set-property) / (get-property) carry their one option"""
+    return block is None or ((not ann(block, 'set-property') or len(block.annotations.get('set-property')) >= 1) and
+                             (not ann(block, 'get-property') or len(block.annotations.get('get-property')) >= 1))
+
+
 def keep_or(new, old_value):
     return new if new is not None else old_value
 
@@ -67,7 +73,7 @@ contract(MT + '_apply_annotations_annotated',
          })
 
 contract(MT + '_get_annotation_name',
-         params={'self': 'MainTransformer', 'node': 'Node'}, returns='str?', props=('C03',),
+         params={'self': 'MainTransformer', 'node': 'Node'}, returns='str?', props=('C03',), pure_keys=['node'],
          raises={'AssertionError': 'not isinstance(node, (ast.Class, ast.Interface, ast.Record, ast.Union, ast.Enum, '
                                    'ast.Bitfield, ast.Callback, ast.Alias, ast.Constant))'},
          ensures={'C03.name.c_type_first': "implies(node.ctype is not None, result == node.ctype)",
@@ -95,4 +101,35 @@ contract(MT + '_apply_annotation_rename_to',
                                                 "node.shadows == old(node.shadows) and LOGGER._warning_count == old(LOGGER._warning_count) + 1)",
              'C03.rename.absent_is_noop': "implies(not (ann(block, 'rename-to') and bool(block.annotations.get('rename-to'))), "
                                           "node.shadows == old(node.shadows) and LOGGER._warning_count == old(LOGGER._warning_count))",
+         })
+
+
+# ---- block targeting: a Struct.field block documents exactly that field -----------------------------------------
+from . import c01_param_annotations   # noqa  (_adjust_container_type contract)
+contract('giscanner.transformer.Transformer.create_type_from_user_string', params={'self': 'Transformer', 'typestr': 'str'},
+         returns='Type', fresh_result=True, trusted=True, raises={'KeyError': 'maybe'}, modifies=['LOGGER._warning_count'],
+         note='type-string parsing / resolution: not under contract')
+
+DOT = '.'
+FIELD_KEY = "self._get_annotation_name(parent) + DOT + field.name"
+contract(MT + '_apply_annotations_field',
+         params={'self': 'MainTransformer', 'parent': 'Class|Interface|Record|Union', 'parent_block': 'GtkDocCommentBlock?', 'field': 'Field'},
+         props=('C03',), requires=['field.name is not None', 'self._get_annotation_name(parent) is not None',
+                                   'options_ok(self._blocks.get(%s))' % FIELD_KEY],
+         modifies=GENERIC_FIELDS[:-1] + ['*.attributes{}', 'field.type', 'field.doc', 'field.doc_position', '*.direction', '*.transfer',
+                                         '*.element_type', '*.key_type', '*.value_type', 'LOGGER._warning_count']
+         if False else ['*.doc', '*.doc_position', '*.version', '*.version_doc', '*.deprecated', '*.deprecated_doc', '*.stability',
+                        '*.stability_doc', '*.skip', '*.foreign', '*.is_constructor', '*.is_method', '*.set_property', '*.get_property',
+                        'field.attributes{}', '*.type', '*.direction', '*.transfer', '*.element_type', '*.key_type', '*.value_type',
+                        'LOGGER._warning_count'],
+         raises={'KeyError': 'True', 'SystemExit': 'True', 'AssertionError': 'True'},
+         local_modes={},
+         ensures={
+             'C03.field.block_is_the_one_named_Struct.field': "all_calls('_apply_annotations_annotated', "
+                                                              "'arg_node is field and arg_block is self._blocks.get(%s)')" % FIELD_KEY,
+             'C03.field.own_block_applied_when_present': "implies(bool(self._blocks.get(%s)), "
+                                                         "each_call_preceded('_adjust_container_type', '_apply_annotations_annotated'))" % FIELD_KEY,
+             'C03.field.container_annotations_from_that_block': "implies(bool(self._blocks.get(%s)), all_calls('_adjust_container_type', "
+                                                                "'arg_node is field and arg_annotations is self._blocks.get(%s).annotations'))"
+                                                                % (FIELD_KEY, FIELD_KEY),
          })
